@@ -324,7 +324,91 @@ def partial_shard(tier, sh):
                                  {'function': 'def f' + show(shape), 'bound_positionals': n, 'bound_keyword': nm,
                                   'result': str(sig), 'problems': probs}, {})
                 st.seen('result', ('partial', shape, nm, n))
+    partial_of_forwarders(st)
     return st
+
+
+FWD_SRC = '''
+def PF_callee(x, y='d_y', *, z='d_z'):
+    return (x, y, z)
+
+
+def PF_callee_po(x, y='d_y', /, *, z='d_z'):
+    return (x, y, z)
+
+
+def PF_w1(a, *args, **kwargs):
+    return PF_callee(*args, **kwargs)
+
+
+def PF_w2(*args, w='d_w', **kwargs):
+    return PF_callee(*args, **kwargs)
+
+
+def PF_w3(a, *args, **kwargs):
+    return PF_callee_po(*args, **kwargs)
+
+
+def PF_w4(a, b='d_b', **kwargs):
+    return PF_callee(0, **kwargs)
+
+
+def PF_chain(c, *args, **kwargs):
+    return PF_w1(*args, **kwargs)
+'''
+
+
+def partial_of_forwarders(st):
+    """partial objects over functions whose effective signature comes from discovered forwarding (real source): every
+    combination of <=2 bound positionals and <=2 bound keywords, through sigtools.signature."""
+    import functools
+    import sigtools
+    from vf import progs
+    batch = progs.Batch(prelude='')
+    batch.add(FWD_SRC, 10)
+    batch.load()
+    try:
+        for wname in ('PF_w1', 'PF_w2', 'PF_w3', 'PF_w4', 'PF_chain'):
+            f = batch.get(wname)
+            orig = sigtools.signature(f)
+            kws = [q.name for q in orig.parameters.values() if q.kind in (q.POSITIONAL_OR_KEYWORD, q.KEYWORD_ONLY)]
+            npos = len([q for q in orig.parameters.values() if q.kind in (q.POSITIONAL_ONLY, q.POSITIONAL_OR_KEYWORD)])
+            for n in range(0, min(npos, 2) + 1):
+                for r in (1, 2):
+                    for names in itertools.combinations(kws, r):
+                        st.inc('states')
+                        st.inc('transitions')
+                        bound = dict((nm, ('bound', nm)) for nm in names)
+                        p = functools.partial(f, *([0] * n), **bound)
+                        case = {'op': 'partial-forwarder', 'function': wname, 'names': list(names), 'n': n}
+                        base = {'function': '%s%s (as sigtools.signature reports it)' % (wname, orig), 'bound_positionals': n,
+                                'bound_keywords': list(names)}
+                        status, sig = alg.outcome(sigtools.signature, p)
+                        if status == 'other':
+                            st.violation('partial-keyword-rule', case, dict(base, error='%s: %s' % (type(sig).__name__, sig)),
+                                         {'exception': type(sig).__name__})
+                            continue
+                        if status != 'ok':
+                            continue
+                        probs = []
+                        for nm in names:
+                            q = sig.parameters.get(nm)
+                            if q is None:
+                                # a positional bound before it has consumed the parameter: the call itself is impossible
+                                continue
+                            if q.kind != q.KEYWORD_ONLY or q.default != ('bound', nm):
+                                probs.append('bound keyword %r is not a keyword-only parameter defaulting to the bound value' % nm)
+                        for q in sig.parameters.values():
+                            o = orig.parameters.get(q.name)
+                            if q.name in names or o is None:
+                                continue
+                            if q.default != o.default or not kind_ok(o.kind, q.kind):
+                                probs.append('parameter %s no longer carries its own default / kind (%s)' % (q, o))
+                        if probs:
+                            st.violation('partial-keyword-rule', case, dict(base, result=str(sig), problems=probs), {'route': 'discovery'})
+                        st.seen('result', ('partial-forwarder', wname, names, n, str(sig)))
+    finally:
+        batch.close()
 
 
 def shard(tier, sh):
@@ -373,6 +457,9 @@ def replay(art):
         shapes = list(space.universe(1, 'a'))
         st = merge_triples_shard('quick', (shapes.index(trio[0]), shapes.index(trio[0]) + 1))
         st.viol = [v for v in st.viol if v['case'].get('inputs') == c['inputs']]
+    elif c['op'] == 'partial-forwarder':
+        partial_of_forwarders(st)
+        st.viol = [v for v in st.viol if v['case'] == c]
     elif c['op'] == 'partial':
         st = partial_shard('quick', (0, 0))
         st.viol = [v for v in st.viol if v['case'].get('shape') == c.get('shape') and v['case'].get('name') == c.get('name')]
